@@ -53,7 +53,8 @@ Rules == <<
   [p |-> Svc(<<"ports">>), r |-> "keyed-port"],
   [p |-> Svc(<<"volumes">>), r |-> "keyed-target"],
   [p |-> Svc(<<"secrets">>), r |-> "keyed-mount-secret"],
-  [p |-> Svc(<<"configs">>), r |-> "keyed-mount-config"]
+  [p |-> Svc(<<"configs">>), r |-> "keyed-mount-config"],
+  [p |-> <<"networks", "*", "ipam", "config">>, r |-> "ipam-config"]
 >>
 RuleAt(path) == IF \E i \in 1..Len(Rules) : Matches(path, Rules[i].p)
                 THEN Rules[CHOOSE i \in 1..Len(Rules) : Matches(path, Rules[i].p)].r
@@ -108,7 +109,7 @@ DependsDefault == M2("condition", S("service_started"), "required", B(TRUE))
 ListToMap(x, dflt) == IF IsL(x) THEN M([k \in {x.v[i].v : i \in 1..Len(x.v)} |-> dflt]) ELSE x
 
 \* ------------------------------------------------------------ the override of one node
-RECURSIVE Over(_, _, _)
+RECURSIVE Over(_, _, _), IpamFold(_, _, _)
 MapOver(b, o, path) ==
   M([k \in Keys(b) \cup Keys(o) |->
        IF k \in Keys(b) /\ k \in Keys(o) THEN Over(Get(b, k), Get(o, k), Append(path, k))
@@ -125,12 +126,23 @@ Over(b, o, path) ==
     [] r = "depends_on" -> MapOver(ListToMap(b, DependsDefault), ListToMap(o, DependsDefault), path)
     [] r = "networks" -> MapOver(ListToMap(b, Null), ListToMap(o, Null), path)
     [] r = "build" -> MapOver(IF IsM(b) THEN b ELSE M1("context", b), IF IsM(o) THEN o ELSE M1("context", o), path)
+    [] r = "ipam-config" -> IF IsL(b) /\ IsL(o) THEN L(IpamFold(b.v, o.v, path)) ELSE o
     [] r = "logging" -> IF Has(b, "driver") /\ Has(o, "driver") /\ Get(b, "driver") # Get(o, "driver") THEN o ELSE MapOver(b, o, path)
     [] OTHER ->
          IF IsNull(o) THEN b
          ELSE IF IsM(b) /\ IsM(o) THEN MapOver(b, o, path)
          ELSE IF IsL(b) /\ IsL(o) THEN L(b.v \o o.v)
          ELSE o
+
+\* ipam configs: an override with the subnet of an existing config is merged into it, any other one is appended
+SubnetOf(e) == IF IsM(e) /\ Has(e, "subnet") THEN Get(e, "subnet") ELSE Null
+IpamFold(acc, os, path) ==
+  IF os = <<>> THEN acc
+  ELSE LET e == Head(os)
+           hit == {i \in 1..Len(acc) : IsM(acc[i]) /\ IsM(e) /\ SubnetOf(acc[i]) = SubnetOf(e)} IN
+       IF hit = {} THEN IpamFold(Append(acc, e), Tail(os), path)
+       ELSE LET i == CHOOSE x \in hit : \A y \in hit : x <= y IN
+            IpamFold([acc EXCEPT ![i] = MapOver(acc[i], e, path)], Tail(os), path)
 
 \* !reset: the attribute is removed from the accumulated model (and from the overriding document)
 RECURSIVE ResetPaths(_, _), Strip(_), DelPath(_, _)
